@@ -42,13 +42,14 @@ PROP = {
                      "AxVerif.Driver.Threads"],
     "rule": "one case = 2-8 client threads on one fresh database (own Session transactions and/or autocommit Database::execute calls; "
             "inserts, deletes, selects; UPDATE and the other known-finding features of C04 are kept out), started behind a barrier, paced "
-            "from the case's seed, every call under a watchdog (10 s bound) inside a supervised child process. Clean shapes (each 1/8 of the clean "
+            "from the case's seed, every call under a watchdog (10 s bound) inside a supervised child process. Clean shapes (each 1/9 of the clean "
             "cases): 2 autocommit writers on own tables; 2-3 writers + readers of static tables; 3-5 session writers + session readers; the "
             "same over tables preloaded to several pages (cache 10000 or 32-64); readers scanning the very tables being written (one-page "
             "and multi-page); begin/commit stress (2 session writers x 6-8 transactions, 2 fast autocommit committers, 3-4 readers of the "
             "session writers' tables); scans next to splits (one writer appends 100-160 rows to a multi-page table while 3 readers scan it); the preloaded shape with a "
-            "cache of 12-20 pages, below the working set (eviction while other threads pin frames). "
-            "Region shapes (4 % of quick, 8 % of thorough cases, spread among the clean ones): several writers on ONE table, a thread calling "
+            "cache of 12-20 pages, below the working set (eviction while other threads pin frames); 2-4 writers inserting into and deleting from "
+            "ONE table (judged for snapshot isolation; a serial order is demanded only of conflict-free cases). "
+            "Region shapes (4 % of quick, 8 % of thorough cases, spread among the clean ones): a thread calling "
             "Database::flush, statements that panic in a pool worker. All derived from VERIF_SEED (the schedules "
             "themselves are the OS's). Non-trivial = every case (>= 2 threads, >= 30 events); distinct = distinct case line.",
     "assumptions": [
@@ -93,14 +94,14 @@ TEXT = {
             "a serial execution of its transactions. (c) Tie: ~340 (quick) / ~5 200 (thorough) runs of 2-8 real client threads against the real "
             "database per check, each under a watchdog, each judged by the checker.",
     "design_ref": "DESIGN.md §5 C14",
-    "note": "Schedules are observed, not enumerated; the latch theorems are about an abstraction of the acquisition order read off the code. Two "
+    "note": "Schedules are observed, not enumerated; the latch theorems are about an abstraction of the acquisition order read off the code. Three "
             "defects were repaired (fix: commits): page read latches were not re-entrant although scans latch a page through two accessors "
             "(deadlock with any concurrent writer of a one-page table, ~15 % of same-table runs); TransactionCoordinator::begin was not atomic "
-            "(a snapshot taken between id allocation and registration of another transaction read its uncommitted rows, ~6 % of stress runs). "
+            "(a snapshot taken between id allocation and registration of another transaction read its uncommitted rows, ~6 % of stress runs); "
+            "concurrent inserts into one table were handed the same row id and lost rows (~35 % of same-table-writer runs). "
             "Two further defects seen here were repaired by other properties' fixes now on main (C12's eviction sweep: small caches under "
-            "concurrency; C16's catch_unwind: a panicking statement no longer kills its pool worker). Three findings are listed with region "
-            "attribution: concurrent inserts into one table lose rows (row id read-modify-write through the catalog), Database::flush deadlocks "
-            "with writers, IN (SELECT ...) panics in the evaluator (C16's finding; attributed only while no call hangs). Inside those regions the "
+            "concurrency; C16's catch_unwind: a panicking statement no longer kills its pool worker). Two findings are listed with region "
+            "attribution: Database::flush deadlocks with writers, IN (SELECT ...) panics in the evaluator (C16's finding; attributed only while no call hangs). Inside those regions the "
             "verdict is weaker.",
     "technique": "Lean 4 deadlock-freedom proofs over a latch transition system + verified history checker (snapshot isolation / serial order) "
                  "applied to observations of real multi-threaded runs",
